@@ -117,7 +117,8 @@ def check_instance(ctx, inst, props=('C03',), helper_kind='h1'):
     cands = []
     tag = f'dst={d},src={s},off={off},imm={imm}' + (f',hi={nimm}' if k == 'lddw' else '')
     if r.get('status') != 'ok':
-        pr.out['errors'].append(f'{name} [{tag}]: jit_compile failed on a verifier-accepted program: {r.get("status")} {r.get("msg")}')
+        # a native observation: the verifier accepted the program, every helper it calls is registered, the interpreter runs it - the JIT refuses or crashes
+        cands.append(dict(role=f'jit/{name}/compile-refused', detail=f'jit_compile fails on a verifier-accepted program [{tag}] whose helpers are registered: {r.get("status")} {str(r.get("msg"))[:160]}', model=None, inst=list(inst), prog=prog.hex(), friendly=True))
         return cands
     code = bytes.fromhex(r['code']); locs = r['pc_locs']
     nslots = len(prog) // 8
